@@ -40,14 +40,20 @@
 (*   ForwardOverridesQualifier  FindNode(): a pending FORWARD replaces an  *)
 (*                           explicit [section] qualifier (pass 1)         *)
 (*   GlobalToSelf            GLOBAL x:PARENT0 enters x twice (double def)  *)
+(*   LoneMinusIsZero         "-" with no minus symbol before it is the     *)
+(*                           expression "minus nothing" = 0, not an error  *)
 (*   PP lists are consumed by the next definition only                     *)
 (***************************************************************************)
 EXTENDS Integers, Sequences, FiniteSets, TLC
 
-CONSTANTS LOCSYMSIGHT,            \* asmpars.c #define LOCSYMSIGHT 3
-          PopVIntoConstant,       \* TRUE = pinned tree
-          NamedTmpByLastGlobal,   \* TRUE = pinned tree
-          EmptyMacroPopsOuter     \* TRUE = pinned tree
+CONSTANTS LOCSYMSIGHT             \* asmpars.c #define LOCSYMSIGHT 3
+
+\* the deviations of the pinned tree that can be switched (field devs of the machine state): with PINNED the machine
+\* is the code as it is, with {} it is the code with the three proposed repairs
+PINNED == {"popv_const", "dd_same_name", "empty_macro_nested"}
+PopVIntoConstant(s) == "popv_const" \in s.devs
+NamedTmpByLastGlobal(s) == "dd_same_name" \in s.devs
+EmptyMacroPopsOuter(s) == "empty_macro_nested" \in s.devs
 
 GLOB == -1
 NOSECT == -2
@@ -97,8 +103,8 @@ QName(n) == [t |-> "name", n |-> n]
 (***************************************************************************)
 (* Part 2: the machine.                                                    *)
 (***************************************************************************)
-InitS(cs) ==
-  [cs |-> cs, pass |-> 1, repass |-> FALSE, errs |-> 0, warns |-> 0, ekinds |-> {},
+InitS(cs, devs) ==
+  [cs |-> cs, devs |-> devs, pass |-> 1, repass |-> FALSE, errs |-> 0, warns |-> 0, ekinds |-> {},
    sects |-> <<>>,              \* FirstSection list: [name, parent]
    mom |-> GLOB,                \* MomSectionHandle
    stk |-> <<>>,                \* SectionStack, head first: [h (saved handle), fwd, pub, glb]
@@ -226,7 +232,7 @@ EnterSymbol(s, name, val, mayChange, res) ==
 EnterLoc(s, name, val) == Adder(s, "loc", <<name, s.momLoc>>, val, FALSE)
 
 \* ---- temporary symbols (ChkTmp1/2/3) ----------------------------------------------------------------
-DDSuffix(s) == IF NamedTmpByLastGlobal THEN "#" \o Join(s.lastGlob, "_") ELSE "#" \o ToString(s.ddCnt)
+DDSuffix(s) == IF NamedTmpByLastGlobal(s) THEN "#" \o Join(s.lastGlob, "_") ELSE "#" \o ToString(s.ddCnt)
 
 \* the name FindNode/EnterSymbol finally use (after ChkTmp and folding); for "dd" the hash stands for the suffix
 Stored(s, nm) ==
@@ -315,9 +321,13 @@ DoTmpDef(s, t) ==
       s2 == IF s.momLoc # -1 THEN EnterLoc(r.s, r.name, s.pc) ELSE EnterSymbol(r.s, r.name, s.pc, FALSE, NOSECT)
   IN Emit(s2, 43690, "fill")
 
+\* LoneMinusIsZero: a single "-" that ChkTmp2 does not replace (empty log) reaches the expression parser, where a
+\* minus sign without operand evaluates to 0; "--", "++++" etc. are syntax errors there.
 DoTmpRef(s, t, c) ==
   LET r == TmpRefName(s, t, c)
-  IN IF r.ok THEN DoLookup(s, r.name, NoQ) ELSE Err(s, "BadTmpRef")
+  IN IF r.ok THEN DoLookup(s, r.name, NoQ)
+     ELSE IF t = "-" /\ c = 1 THEN Emit(s, 0, "def")
+     ELSE Err(s, "BadTmpRef")
 
 StackName(s, st) == IF st = "" THEN "DEFSTACK" ELSE Fold(s.cs, st)
 
@@ -339,7 +349,7 @@ DoPopV(s, st, nm, q) ==
               nst  == IF rest = <<>> THEN [x \in (DOMAIN s.stacks) \ {sn} |-> s.stacks[x]]
                       ELSE [s.stacks EXCEPT ![sn] = rest]
               e    == s.tab[fn.key]
-              keep == ~PopVIntoConstant /\ ~e.chg          \* repaired behaviour: constants are not overwritten
+              keep == ~PopVIntoConstant(s) /\ ~e.chg          \* repaired behaviour: constants are not overwritten
           IN IF keep /\ e.val # stck[1] THEN Err([s EXCEPT !.stacks = nst], "PopVConstant")
              ELSE [s EXCEPT !.stacks = nst, !.tab = [@ EXCEPT ![fn.key].val = stck[1]]]
 
@@ -353,7 +363,7 @@ DeliverLine(s) == IF s.mtags # <<>> /\ ~s.mtags[1] THEN [PushLocHandle(s) EXCEPT
 DoMacEnd(s) ==
   IF s.mtags = <<>> THEN s
   ELSE LET s1 == [s EXCEPT !.mtags = Tail(@)]
-       IN IF s.mtags[1] \/ EmptyMacroPopsOuter THEN PopLocHandle(s1) ELSE s1
+       IN IF s.mtags[1] \/ EmptyMacroPopsOuter(s) THEN PopLocHandle(s1) ELSE s1
 
 Step(s0, st) ==
   LET s == IF st.k = "MACEND" THEN [s0 EXCEPT !.obs = <<>>] ELSE DeliverLine([s0 EXCEPT !.obs = <<>>]) IN
@@ -393,9 +403,9 @@ PassLoop(s, p, left) ==
   LET e == RunPass(s, p, 1)
   IN IF e.errs > 0 \/ ~e.repass \/ left = 0 THEN e ELSE PassLoop(NextPass(e), p, left - 1)
 
-RunAll(cs, p) == PassLoop(InitS(cs), p, 2)
+RunAll(cs, devs, p) == PassLoop(InitS(cs, devs), p, 2)
 \* the same with n forced further passes (ASL_VERIF_EXTRA_PASSES): what a later pass would resolve
-RunExtra(cs, p) == LET e == RunAll(cs, p) IN IF e.errs > 0 THEN e ELSE RunPass(NextPass(e), p, 1)
+RunExtra(cs, devs, p) == LET e == RunAll(cs, devs, p) IN IF e.errs > 0 THEN e ELSE RunPass(NextPass(e), p, 1)
 
 (***************************************************************************)
 (* Part 3: the declarative meaning (the manual), by position arithmetic    *)
@@ -641,6 +651,7 @@ PopsIntoConstant(A, E) ==
 Silent(A, E) ==
   LET p == A.p IN
   \/ \E d \in 1..A.n : p[d].k = "GLOBAL" /\ p[d].q.t = "parent" /\ p[d].q.d = 0           \* GlobalToSelf
+  \/ \E i \in 1..A.n : p[i].k = "TREF" /\ p[i].t = "-" /\ p[i].c = 1 /\ TmpTargetPos(A, i) = 0   \* LoneMinusIsZero
   \/ \E d \in 1..A.n : p[d].k = "GLOBAL" /\ p[d].q.t = "name" /\ Target(A, d, p[d].q) = A.path[d][1] /\ A.path[d][1] # 0
 
 \* texts on which the pinned tree is known to deviate from the manual (the named deviations at the top)
